@@ -52,6 +52,11 @@ func (c c06Case) build(w *World, key string, payload []byte, sizes []int) (*gw.R
 			v = "not-base64!!"
 			applied = true
 		}
+		if c.Corrupt == "content-md5-letter-case-flipped" {
+			if f, ok := flipLetterCase(v); ok {
+				v, applied = f, true
+			}
+		}
 		r.Set("Content-MD5", v)
 	}
 	if c.CsumHdr && c.Algo != "" {
@@ -59,6 +64,11 @@ func (c c06Case) build(w *World, key string, payload []byte, sizes []int) (*gw.R
 		if c.Corrupt == "wrong-checksum-header" {
 			v = gw.Checksum(c.Algo, append([]byte("x"), payload...))
 			applied = true
+		}
+		if c.Corrupt == "checksum-header-letter-case-flipped" {
+			if f, ok := flipLetterCase(v); ok {
+				v, applied = f, true
+			}
 		}
 		r.Set("x-amz-checksum-"+c.Algo, v)
 	}
@@ -142,6 +152,23 @@ func (c c06Case) build(w *World, key string, payload []byte, sizes []int) (*gw.R
 		r.Body = enc
 	}
 	return r, applied
+}
+
+// flipLetterCase changes the case of the first letter of a base64 value: another value, equal only to a
+// case-insensitive comparison.
+func flipLetterCase(v string) (string, bool) {
+	b := []byte(v)
+	for i, ch := range b {
+		switch {
+		case ch >= 'a' && ch <= 'z':
+			b[i] = ch - 32
+			return string(b), true
+		case ch >= 'A' && ch <= 'Z':
+			b[i] = ch + 32
+			return string(b), true
+		}
+	}
+	return v, false
 }
 
 func (c c06Case) corruptStream(enc []byte, spans []gw.ChunkSpan, applied, hasTrailer, signed bool) ([]byte, bool) {
@@ -228,9 +255,9 @@ func (c c06Case) corruptStream(enc []byte, spans []gw.ChunkSpan, applied, hasTra
 func C06(r *ck.Run) {
 	r.Rule("upload mode {signed, UNSIGNED-PAYLOAD, presigned, streaming signed, streaming signed+trailer, streaming unsigned+trailer} × {PutObject, UploadPart} × integrity field × corruption (bit flip at EVERY payload offset, wrong declared value of every field, every chunk/trailer signature, truncation after every chunk / inside every header / inside data, extra bytes, declared decoded length ±1 and ×2) × prior key state (new, existing; versioned in the thorough tier) × 3 request fragmentations, end-to-end with byte-exact storage snapshots; distinct = (config, case, key state, fragmentation)")
 	r.Assume("an upload with UNSIGNED-PAYLOAD / presigned and neither Content-MD5 nor a checksum header carries no assertion about the payload bytes, so bit flips are not applied there")
-	cfgs := []gw.Opts{{}}
+	cfgs := []gw.Opts{{}, {Sidecar: true}}
 	if r.Thorough() {
-		cfgs = append(cfgs, gw.Opts{Versioning: true}, gw.Opts{NoTmpFile: true}, gw.Opts{Sidecar: true})
+		cfgs = append(cfgs, gw.Opts{Versioning: true}, gw.Opts{NoTmpFile: true}, gw.Opts{Sidecar: true, Versioning: true})
 	}
 	payload := Pattern(15, 9)
 	sizes := []int{5, 1, 9}
@@ -270,7 +297,7 @@ func C06(r *ck.Run) {
 					for off := 0; off < len(payload); off++ {
 						add("bit-flip", off)
 					}
-					for _, k := range []string{"wrong-content-md5", "malformed-content-md5", "wrong-checksum-header", "wrong-content-sha256", "declared-length-plus-1", "declared-length-minus-1", "declared-length-double",
+					for _, k := range []string{"wrong-content-md5", "malformed-content-md5", "wrong-checksum-header", "content-md5-letter-case-flipped", "checksum-header-letter-case-flipped", "wrong-content-sha256", "declared-length-plus-1", "declared-length-minus-1", "declared-length-double",
 						"trailer-checksum", "trailer-signature", "truncate-final-crlf", "extra-bytes-after-final-chunk", "extra-garbage-after-final-chunk"} {
 						add(k, 0)
 					}
